@@ -26,6 +26,21 @@ def main() -> int:
     mod = importlib.import_module(f"props.{prop.lower()}")
     ctx = Ctx(prop, args.tier, seed)
 
+    # Watchdog: a run that does not finish (e.g. the implementation under check hangs in a place the
+    # property's own harness does not bound) ends as an infrastructure failure, never as a verdict.
+    import threading
+
+    limit = int(os.environ.get("VERIF_WATCHDOG_S", "1200" if args.tier == "quick" else "5400"))
+
+    def _abort():
+        log(f"[{prop}] infrastructure failure: watchdog expired after {limit} s")
+        sys.stderr.flush()
+        os._exit(2)
+
+    wd = threading.Timer(limit, _abort)
+    wd.daemon = True
+    wd.start()
+
     if args.replay:
         payload = json.loads(Path(args.replay).read_text())
         return mod.replay(ctx, payload.get("replay", payload))
